@@ -1,7 +1,6 @@
 (* StreamIdleProofs.v — transports with idle reads ((0, nil) = an empty chunk):
    io.ReadFull and a single Read on a transport commute with removing the empty
-   chunks, provided no empty chunk sits between the last byte and the end of the
-   stream ([nt_chunks]; there the model's ReadFull differs, see C04). A single Read
+   chunks (an idle read does not count as "bytes were read"). A single Read
    on an empty head chunk returns "0 bytes, no error" and only drops the chunk. *)
 Require Import Bytes Stream BytesProofs StreamProofs Reader ReaderIdle.
 From Coq Require Import ZifyBool ZifyN ZifyNat.
@@ -51,113 +50,71 @@ Qed.
 Lemma idle_le_length cs : (idle_chunks cs <= length cs)%nat.
 Proof. unfold idle_chunks. induction cs as [|c cs IH]; cbn [filter length]; [lia|]. destruct (is_idle c); cbn [length]; lia. Qed.
 
-(* ------------------------------------------------------------------ no idle read before the end *)
-Lemma nt_tail c cs : nt_chunks (c :: cs) -> nt_chunks cs.
-Proof. destruct cs; [intros _; exact I|intros H; exact H]. Qed.
-
-Lemma nt_idle_head cs : nt_chunks ([] :: cs) -> cs <> [].
-Proof. destruct cs; [intros H _; apply H; reflexivity|discriminate]. Qed.
-
-Lemma nt_cons_data c cs : c <> [] -> nt_chunks cs -> nt_chunks (c :: cs).
-Proof. intros Hc H. destruct cs; [exact Hc|exact H]. Qed.
-
-Lemma nt_strip_nonempty cs : nt_chunks cs -> cs <> [] -> strip_chunks cs <> [].
-Proof.
-  induction cs as [|c cs IH]; intros Hn Hne; [contradiction|]. destruct c as [|x c].
-  - rewrite strip_cons_idle. apply IH; [apply (nt_tail _ _ Hn)|apply nt_idle_head, Hn].
-  - rewrite strip_cons_data by discriminate. discriminate.
-Qed.
-
-Lemma nt_of_not_ends_idle s : ~ ends_idle s -> nt_chunks (chunks s).
-Proof.
-  unfold ends_idle. generalize (chunks s) as cs. induction cs as [|c cs IH]; intros H; [exact I|].
-  destruct cs as [|c2 cs].
-  - cbn [nt_chunks]. intros ->. apply H. exists []. reflexivity.
-  - change (nt_chunks (c2 :: cs)). apply IH. intros (cs' & E). apply H. exists (c :: cs'). rewrite E. reflexivity.
-Qed.
-
-Lemma ends_idle_of_not_nt s : ends_idle s -> ~ nt_chunks (chunks s).
-Proof.
-  unfold ends_idle. intros (cs' & E). rewrite E. clear E. induction cs' as [|c cs' IH].
-  - cbn. intros H. apply H. reflexivity.
-  - intros H. apply IH. apply (nt_tail _ _ H).
-Qed.
-
-Lemma wf_nt cs : wf_chunks cs -> nt_chunks cs.
-Proof. induction 1 as [|c cs Hc _ IH]; [exact I|]. apply nt_cons_data; assumption. Qed.
-
 (* ------------------------------------------------------------------ io.ReadFull *)
 Lemma read_full_aux_0 need got cs t : (need =? 0) = true -> read_full_aux need got cs t = (([], None), cs).
 Proof. intros E. destruct cs; cbn [read_full_aux]; rewrite E; reflexivity. Qed.
-
-Lemma read_full_aux_got need g1 g2 c cs t :
-  read_full_aux need g1 (c :: cs) t = read_full_aux need g2 (c :: cs) t.
-Proof. reflexivity. Qed.
 
 Lemma len_nil_b : len (@nil byte) = 0. Proof. reflexivity. Qed.
 
 Lemma drop_nonempty {A} n (c : list A) : n < len c -> drop n c <> [].
 Proof. intros H E. apply (f_equal len) in E. rewrite len_drop in E. change (len (@nil A)) with 0 in E. lia. Qed.
 
-Lemma read_full_aux_strip : forall cs need got t, nt_chunks cs ->
+Lemma read_full_aux_strip : forall cs need got t,
   let '((b, e), rest) := read_full_aux need got cs t in
-  read_full_aux need got (strip_chunks cs) t = ((b, e), strip_chunks rest) /\ nt_chunks rest /\
+  read_full_aux need got (strip_chunks cs) t = ((b, e), strip_chunks rest) /\
   (idle_chunks rest <= idle_chunks cs)%nat.
 Proof.
-  induction cs as [|c cs IH]; intros need got t Hnt.
-  - cbn [read_full_aux strip_chunks filter]. destruct (need =? 0); (split; [reflexivity|split; [exact I|apply le_n]]).
+  induction cs as [|c cs IH]; intros need got t.
+  - cbn [read_full_aux strip_chunks filter]. destruct (need =? 0); (split; [reflexivity|apply le_n]).
   - destruct (need =? 0) eqn:E0.
-    { rewrite !read_full_aux_0 by exact E0. split; [reflexivity|]. split; [exact Hnt|apply le_n]. }
+    { rewrite !read_full_aux_0 by exact E0. split; [reflexivity|apply le_n]. }
     destruct c as [|x c0].
-    + (* an idle read: ReadFull goes on *)
+    + (* an idle read: ReadFull goes on, and has still read no byte *)
       cbn [read_full_aux]. rewrite E0, len_nil_b. replace (need <=? 0) with false by lia. rewrite N.sub_0_r.
-      pose proof (nt_tail _ _ Hnt) as Hnt'. pose proof (nt_idle_head _ Hnt) as Hne.
-      specialize (IH need true t Hnt').
-      destruct (read_full_aux need true cs t) as [[r e] rest]. destruct IH as (IH1 & IH2 & IH3).
-      cbn [app]. rewrite strip_cons_idle. split; [|split; [exact IH2|rewrite idle_cons_idle; lia]].
-      pose proof (nt_strip_nonempty cs Hnt' Hne) as Hs. destruct (strip_chunks cs) as [|y l]; [contradiction|].
-      rewrite (read_full_aux_got need got true). exact IH1.
+      cbn [N.eqb negb]. rewrite orb_false_r.
+      specialize (IH need got t).
+      destruct (read_full_aux need got cs t) as [[r e] rest]. destruct IH as (IH1 & IH3).
+      cbn [app]. rewrite strip_cons_idle. split; [exact IH1|rewrite idle_cons_idle; lia].
     + rewrite strip_cons_data by discriminate. cbn [read_full_aux]. rewrite E0.
       set (c := x :: c0) in *. assert (Hc: c <> []) by discriminate.
       destruct (need <=? len c) eqn:E1.
       * destruct (need =? len c) eqn:E2.
-        -- split; [reflexivity|]. split; [apply (nt_tail _ _ Hnt)|rewrite idle_cons_data by exact Hc; apply le_n].
+        -- split; [reflexivity|]. rewrite idle_cons_data by exact Hc; apply le_n.
         -- assert (Hd: drop need c <> []) by (apply drop_nonempty; lia).
-           rewrite strip_cons_data by exact Hd. split; [reflexivity|]. split.
-           ++ apply nt_cons_data; [exact Hd|apply (nt_tail _ _ Hnt)].
-           ++ rewrite !idle_cons_data by assumption. apply le_n.
-      * specialize (IH (need - len c) true t (nt_tail _ _ Hnt)).
-        destruct (read_full_aux (need - len c) true cs t) as [[r e] rest]. destruct IH as (IH1 & IH2 & IH3).
-        rewrite IH1. split; [reflexivity|]. split; [exact IH2|]. rewrite idle_cons_data by exact Hc. exact IH3.
+           rewrite strip_cons_data by exact Hd. split; [reflexivity|].
+           rewrite !idle_cons_data by assumption. apply le_n.
+      * specialize (IH (need - len c) (got || negb (len c =? 0)) t).
+        destruct (read_full_aux (need - len c) (got || negb (len c =? 0)) cs t) as [[r e] rest].
+        destruct IH as (IH1 & IH3).
+        rewrite IH1. split; [reflexivity|]. rewrite idle_cons_data by exact Hc. exact IH3.
 Qed.
 
-Lemma read_full_strip need s : nt_chunks (chunks s) ->
+Lemma read_full_strip need s :
   let '((b, e), s') := read_full need s in
-  read_full need (strip s) = ((b, e), strip s') /\ nt_chunks (chunks s') /\
+  read_full need (strip s) = ((b, e), strip s') /\
   (idle_reads s' <= idle_reads s)%nat /\ tl s' = tl s.
 Proof.
-  intros Hnt. unfold read_full, strip. cbn [chunks tl].
-  pose proof (read_full_aux_strip (chunks s) need false (tl s) Hnt) as H.
-  destruct (read_full_aux need false (chunks s) (tl s)) as [[b e] rest]. destruct H as (H1 & H2 & H3).
+  unfold read_full, strip. cbn [chunks tl].
+  pose proof (read_full_aux_strip (chunks s) need false (tl s)) as H.
+  destruct (read_full_aux need false (chunks s) (tl s)) as [[b e] rest]. destruct H as (H1 & H3).
   rewrite H1. cbn [chunks tl]. repeat split; assumption.
 Qed.
 
 (* ------------------------------------------------------------------ one Read *)
 (* the head chunk holds bytes, or the transport is at its end *)
-Lemma read1_strip k s : nt_chunks (chunks s) -> (forall cs, chunks s <> [] :: cs) ->
+Lemma read1_strip k s : (forall cs, chunks s <> [] :: cs) ->
   let '((b, e), s') := read1 k s in
-  read1 k (strip s) = ((b, e), strip s') /\ nt_chunks (chunks s') /\ idle_reads s' = idle_reads s.
+  read1 k (strip s) = ((b, e), strip s') /\ idle_reads s' = idle_reads s.
 Proof.
-  intros Hnt Hh. unfold read1, strip, idle_reads. cbn [chunks tl]. destruct (chunks s) as [|c cs] eqn:E.
+  intros Hh. unfold read1, strip, idle_reads. cbn [chunks tl]. destruct (chunks s) as [|c cs] eqn:E.
   - cbn [strip_chunks filter]. rewrite E. repeat split.
   - destruct c as [|x c0]; [exfalso; apply (Hh cs); reflexivity|].
     rewrite strip_cons_data by discriminate. set (c := x :: c0) in *. assert (Hc: c <> []) by discriminate.
     destruct (k <? len c) eqn:Ek; cbn [chunks tl].
     + assert (Hd: drop k c <> []) by (apply drop_nonempty; lia).
-      rewrite strip_cons_data by exact Hd. split; [reflexivity|]. split.
-      * apply nt_cons_data; [exact Hd|apply (nt_tail _ _ Hnt)].
-      * rewrite !idle_cons_data by assumption. reflexivity.
-    + split; [reflexivity|]. split; [apply (nt_tail _ _ Hnt)|]. rewrite idle_cons_data by exact Hc. reflexivity.
+      rewrite strip_cons_data by exact Hd. split; [reflexivity|].
+      rewrite !idle_cons_data by assumption. reflexivity.
+    + split; [reflexivity|]. rewrite idle_cons_data by exact Hc. reflexivity.
 Qed.
 
 (* the head chunk is empty: (0, nil), and the chunk is gone *)
